@@ -433,7 +433,8 @@ func RunInterrupt(ctx context.Context, c Case, dir string, o *Obs) error {
 	setPlan("", 0)
 	must(sb, "call dolt_pull('origin','main')")
 	point("pull", "none", false, bdb)
-	o.PullEqual = rows(sb, "select * from u") == rows(sa, "select * from u") && rows(sb, "select * from t") == rows(sa, "select * from t")
+	o.PullEqual = rows(sb, "select * from u") == rows(sa, "select * from u") && rows(sb, "select * from t") == rows(sa, "select * from t") &&
+		rows(sb, "select * from wd") == rows(sa, "select * from wd")
 	// ---- clone, source-side failures: the clone must either not exist or be complete
 	o.CloneEqual = true
 	for i, sp := range []string{"sources", "open"} {
@@ -459,7 +460,7 @@ func RunInterrupt(ctx context.Context, c Case, dir string, o *Obs) error {
 	must(cl, "use clok")
 	src, _ := a.NewSession()
 	must(src, "call dolt_checkout('main')")
-	for _, q := range []string{"select * from t", "select * from u", "select dolt_hashof_db('HEAD')"} {
+	for _, q := range []string{"select * from t", "select * from u", "select * from wd", "select dolt_hashof_db('HEAD')"} {
 		if rows(cl, q) != rows(src, q) {
 			o.CloneEqual = false
 		}
